@@ -183,7 +183,8 @@ def observers(ctx):
            construct="RunningState.append", message=f"append does {stores}", consequence="the record buffer aliases solver arrays")
     fu = repo.func(SOLVER, "TDGLSolver.update")
     # after the screening loop: psi / mu / currents are not modified in place
-    loops = [n for n in own_nodes(fu.node) if isinstance(n, ast.For) and "count" in norm(n.iter)]
+    loops = [n for n in own_nodes(fu.node) if isinstance(n, (ast.For, ast.While)) and any(
+        isinstance(c, ast.Call) and norm(c.func) == "self.adaptive_euler_step" for c in ast.walk(n))]
     tail = fu.node.body[fu.node.body.index(loops[0]) + 1:] if loops and loops[0] in fu.node.body else []
     muts = []
     for s in tail:
